@@ -114,6 +114,9 @@ pub trait Check {
     fn max_shrink_iters_for(&self, part: &str) -> u32 {
         if part.starts_with("bb-") || part.starts_with("pty") {
             self.max_shrink_iters().min(40)
+        } else if part == "crash-big" {
+            // one evaluation of such a case replays a long history hundreds of times
+            self.max_shrink_iters().min(6)
         } else {
             self.max_shrink_iters()
         }
